@@ -36,6 +36,9 @@ registry together with the flag and target tables and the index-only marker: eve
 which is what lets the model treat a reload as a fresh run (`C06_reload_is_fresh_load`) -/
 theorem reload_resets_ok : Extracted.Loader.reloadResets = Loader.reloadResets := by decide
 
+/-- the module registry is indexed by the whole label (project included): a module of the model is a full label -/
+theorem module_key_ok : Extracted.Loader.moduleKey = Loader.moduleKey := by decide
+
 /-- everything else about the synchronisation skeletons: unchanged since the model was written -/
 theorem getLoading_skeleton_ok : Extracted.Loader.getLoadingSkeleton = Expected.Loader.getLoadingSkeleton := rfl
 theorem setLoading_skeleton_ok : Extracted.Loader.setLoadingSkeleton = Expected.Loader.setLoadingSkeleton := rfl
